@@ -11,6 +11,10 @@ from . import core, syntax, progs, c13
 
 
 def trigger(text, used):
+    if any(u in ("closetag+html", "echo+closetag+html") for u in used):
+        return "inline-html"
+    if any(u.startswith(("heredoc/", "nowdoc/")) for u in used):
+        return "heredoc"
     if text and ",)" in text:
         return "comma-before-closing-parenthesis"
     if text and ("+++" in text or "---" in text):
@@ -34,6 +38,7 @@ def run(tier):
     for family in ("7", "5"):
         table, behs = syntax.generate(check, family, num=n, seed=core.seed() + 17, depth=3)
         ex = progs.expand_all(table, behs, core.seed(), layouts)
+        behs, ex = progs.drop_skipped(behs, ex)
         tasks = []
         for i, e in enumerate(ex):
             for v in e["variants"]:
@@ -46,6 +51,8 @@ def run(tier):
                 continue
             check.distinct((family, t["_i"], t["_l"]))
             used = t["_u"]
+            if (r.get("panic") or r.get("crash")) and str(r.get("site")).startswith("internal/scanner"):
+                continue      # a scanner panic while re-parsing (empty heredoc under >= 7.3): C01's business
             if r.get("panic") or r.get("crash"):
                 check.violation({"class": "formatter-panic", "site": r.get("site") or "fatal", "msg": (r.get("panic") or "")[:40]},
                                 {"src": t["src"], "ver": t["ver"], "observed": {k: r.get(k) for k in ("panic", "site", "stage")}, "variants": used})
